@@ -250,16 +250,25 @@ def run_given(ctx, strategy, body, max_examples, seed, **kw):
                 raise
 
 
-def run_machine(ctx, machine_cls, max_examples, steps, seed):
+def run_machine(ctx, machine_cls, max_examples, steps, seed, exec_factory=None, budget_s=40.0):
+    """Histories are expensive to re-execute, so Hypothesis' own shrinker (hard 5-minute cap, hundreds
+    of re-executions) is replaced by a budgeted ddmin over the recorded op log when an
+    `exec_factory` is given."""
     import hypothesis
+    from hypothesis import Phase
     from hypothesis.stateful import run_state_machine_as_test
 
+    phases = (Phase.explicit, Phase.generate) if exec_factory else (Phase.explicit, Phase.generate, Phase.shrink)
     try:
         run_state_machine_as_test(
             hypothesis.seed(seed)(machine_cls),
-            settings=hyp_settings(max_examples, stateful_step_count=steps),
+            settings=hyp_settings(max_examples, stateful_step_count=steps, phases=phases),
         )
     except Violation as v:
+        if exec_factory is not None and isinstance(v.case, dict) and "ops" in v.case:
+            from vf.hist import minimize_history
+
+            v = minimize_history(ctx, exec_factory, v, budget_s)
         ctx.record_violation(v)
 
 
@@ -435,8 +444,8 @@ def run_property(mod, tier, seed, jobs=None):
         json.dumps(evidence, indent=1, default=repr, ensure_ascii=True)
     )
     if harness_errors:
-        for e in harness_errors[:5]:
-            print("HARNESS-ERROR", e, file=sys.stderr)
+        for e in harness_errors[:3]:
+            print("HARNESS-ERROR", "\n".join(e.splitlines()[-14:]), file=sys.stderr)
         if exit_code == 0:
             exit_code = 2
     print(
